@@ -634,8 +634,7 @@ pub fn element_zoo(c: &Curve, rng: &mut impl RngCore, nrand: usize) -> Vec<MEl> 
     for k in [2u64, 3, 4, 7, 100, 65537] {
         z.push(MEl { pt: c.mul(&b(k), &g), class: "kG" });
     }
-    z.push(MEl { pt: c.mul(&(&c.r - b(1)), &g), class: "(r-1)G" });
-    z.push(MEl { pt: c.mul(&((&c.r - b(1)) >> 1), &g), class: "((r-1)/2)G" });
+    z.extend(structured_elements(c));
     for i in 0..nrand {
         // Elligator images (model side) and decodes of random valid strings
         let r0 = rand_below(rng, &c.f.p);
@@ -659,6 +658,96 @@ pub fn element_zoo(c: &Curve, rng: &mut impl RngCore, nrand: usize) -> Vec<MEl> 
         }
     }
     z
+}
+
+
+/// the deterministic, more expensive part of the element zoo (computed once per process)
+fn structured_elements(c: &Curve) -> Vec<MEl> {
+    use std::sync::OnceLock;
+    static CACHE: OnceLock<Vec<MEl>> = OnceLock::new();
+    CACHE.get_or_init(|| {
+        let g = c.decode_spec_fe(&b(8)).unwrap();
+        let mut z: Vec<MEl> = Vec::new();
+    // every small multiple of the generator (tables of precomputed multiples end somewhere)
+        {
+            let mut acc = c.double(&g);
+            for k in 2u64..=66 {
+                if ![2u64, 3, 4, 7].contains(&k) && (k <= 34 || k % 8 == 0 || k > 62) {
+                    z.push(MEl { pt: acc.clone(), class: "small kG" });
+                }
+                acc = c.add(&acc, &g);
+            }
+        }
+        // elements whose *encoding* is a structured or published value: k*2^j with whole zero limbs below,
+        // the field constants of the crate (zeta, 1/zeta, d, ...), short integers
+        {
+            let f = &c.f;
+            let mut cands: Vec<B> = Vec::new();
+            for sh in [64usize, 128, 192] {
+                for k in 1u64..=40 {
+                    cands.push(b(k) << sh);
+                    cands.push((b(k) << sh) + (b(k) << (sh - 64)));
+                }
+            }
+            for v in [c.zeta.clone(), f.inv(&c.zeta).unwrap(), f.sq(&c.zeta), c.d.clone(), f.sub(&c.a, &c.d), f.inv(&b(2)).unwrap(), b(22), b(15), b(5), f.sqrt(&f.neg(&b(1))).unwrap()] {
+                for k in 1u64..=4 {
+                    cands.push(f.abs(&f.mul(&b(k), &v)));
+                }
+            }
+            let mut kept = 0;
+            for s in cands {
+                if s < f.p && !s.bit(0) {
+                    if let Ok(p) = c.decode_spec_fe(&s) {
+                        z.push(MEl { pt: p, class: "structured-encoding" });
+                        kept += 1;
+                        if kept >= 40 {
+                            break;
+                        }
+                    }
+                }
+            }
+        }
+        // elements with a short affine coordinate: x = +-k or y = +-k for small k (both coset members follow below)
+        {
+            let f = &c.f;
+            let mut kept = 0;
+            for k in 1u64..=400 {
+                for neg in [false, true] {
+                    let x = if neg { f.neg(&b(k)) } else { b(k) };
+                    // a x^2 + y^2 = 1 + d x^2 y^2  =>  y^2 = (1 - a x^2)/(1 - d x^2)
+                    let x2 = f.sq(&x);
+                    if let Some(y2) = f.div(&f.sub(&b(1), &f.mul(&c.a, &x2)), &f.sub(&b(1), &f.mul(&c.d, &x2))) {
+                        if let Some(y) = f.sqrt(&y2) {
+                            let p = Pt { x: x.clone(), y };
+                            if c.on_curve(&p) && c.in_2e(&p) {
+                                z.push(MEl { pt: p, class: "short-coordinate" });
+                                kept += 1;
+                            }
+                        }
+                    }
+                    // y = +-k: x^2 = (1 - y^2)/(a - d y^2)
+                    let y = x;
+                    let yy = f.sq(&y);
+                    if let Some(xx) = f.div(&f.sub(&b(1), &yy), &f.sub(&c.a, &f.mul(&c.d, &yy))) {
+                        if let Some(xv) = f.sqrt(&xx) {
+                            let p = Pt { x: xv, y };
+                            if c.on_curve(&p) && c.in_2e(&p) && kept < 60 {
+                                z.push(MEl { pt: p, class: "short-coordinate" });
+                                kept += 1;
+                            }
+                        }
+                    }
+                }
+                if kept >= 24 {
+                    break;
+                }
+            }
+        }
+        z.push(MEl { pt: c.mul(&(&c.r - b(1)), &g), class: "(r-1)G" });
+        z.push(MEl { pt: c.mul(&((&c.r - b(1)) >> 1), &g), class: "((r-1)/2)G" });
+
+        z
+    }).clone()
 }
 
 /// non-zero lambdas for projective rescalings
